@@ -10,6 +10,7 @@ from fractions import Fraction as Fr
 from vf import core
 from vf.ref import defs, dims, names, uexpr
 from vf.ref import c10_systems as SM
+from vf.gen import c10_overrides as OV
 from .common import chunks
 
 RULE = ("one evaluation = one sub-monitor verdict on one (unit system, unit, call form) execution: inside-system (every symbol of the "
@@ -29,10 +30,18 @@ RULE = ("one evaluation = one sub-monitor verdict on one (unit system, unit, cal
         "table the harness itself last wrote, plus: the result's Unit object is worth what the table says now, S[dimension] likewise, the form "
         "called first after an edit answers what the same form answers later, the no-argument forms follow the registry's unit_system, every "
         "form answers what it answers over a never-edited registry of the same contents, and a quantity created before the edit is untouched "
-        "by it and converts to the same physical quantity by its own Unit object. "
+        "by it and converts to the same physical quantity by its own Unit object; in an OVERRIDE history of one live system (built-in cgs / mks / a built-in "
+        "system with current, generated systems with and without a current unit: convert units of a dimension through every route, declare or "
+        "re-declare that dimension with S[dimension] = unit - by name, by alias name, by dimension object - then convert the same units again at once, "
+        "first call rotated over in_base / convert_to_base / get_base_equivalent, system given by name / object / as the default of a registry; for the "
+        "mechanical, thermal, SI-electromagnetic and Gaussian-electromagnetic dimension families) the same verdicts against the declarations the harness "
+        "itself made last (a result in a dimension with a declared unit must be in base units or in THAT unit), plus: S[dimension] hands out the declared "
+        "unit, the first call after the override answers what the same form answers later, units of other dimensions do not move, and every form answers "
+        "what it answers in a system of the same base units under a never-used name in which the same units were declared before any conversion. "
         "distinct = (sub-monitor, system, unit) for table units and (sub-monitor, system class, unit family, shape of the compound) "
         "for generated units; (sub-monitor, system class, kind of re-definition, how the system was handed over, unit family) in histories; "
-        "(sub-monitor, system class, kind of registry-bound system, before/after the edit, how handed over, unit family) in registry-edit histories")
+        "(sub-monitor, system class, kind of registry-bound system, before/after the edit, how handed over, unit family) in registry-edit histories; "
+        "(sub-monitor, system class, before / first declaration / re-declaration, dimension family, how handed over, unit family) in override histories")
 ASSUMPTIONS = (
     "atomic scales are read as data from the registry table by symbol (their correctness is C02's subject); compound scales, "
     "dimensions, prefixes and affine maps are computed by vf/ref (uexpr, defs, dims), never by unyt",
@@ -76,6 +85,15 @@ ASSUMPTIONS = (
     "its conversion is judged by its own Unit objects only (result numbers x result unit scale = old numbers x old scale, inside the "
     "system, the three forms agree in spelling and as physical quantities); whether the result's Unit object carries the old or the new "
     "scale is not judged (the first request of a dimension builds the unit afresh, later ones hand the quantity's own unit back)",
+    "S[dimension] = unit on a live system (built-in or user-defined) is a declaration in the sense of the statement ('units S declares for that "
+    "dimension'), whenever it is made: from then on conversions are judged against the declarations the harness itself recorded, whatever was "
+    "converted before; in these override histories a dimension WITH a declared unit admits only base units or that unit (the allowance for the "
+    "undeclared Gaussian counterpart applies only while nothing is declared for the dimension); keys carry '+override-history'; atoms of the "
+    "SI/Gaussian pairing take part only in their own family (SI atoms with a current unit, Gaussian atoms without), base dimensions are never "
+    "overridden, declared units always have the dimension they are declared for; built-in systems are overridden only inside the forked child",
+    "an ignored or half-applied declaration that leaves results in base units is not outside the system by the statement; it is judged by the "
+    "history-independence monitors (S[dimension] must hand out the declared unit; same answers as a never-used system with the same declarations "
+    "made before any use; keys C10:override:...)",
     "edits that change the dimension of a symbol, and edits of a registry whose system has gone out of reach ('code' after the id "
     "changed and before a system is registered under the new id: KeyError) are outside the property; after an edit a code system is "
     "reached by its object / its old name, or is registered again under the new id (both live systems are judged)",
@@ -345,9 +363,25 @@ def acceptable_scales(S, ctx, d):
             out.append(uexpr.evaluate(S.declared[d], ctx.res)[0])
         except Exception:
             pass
-    if not S.has_current and d in SM.EM_DIM_GAUSS:
+    if not S.has_current and d in SM.EM_DIM_GAUSS and not (getattr(S, "strict", False) and d in S.declared):
         out.append(ctx.res(SM.EM_DIM_GAUSS[d])[0])
     return out
+
+
+class StrictModel(SM.SysModel):
+    """the model of a system in an override history: what is declared is what the harness's own override events (and the
+    constructor-time declarations) say; where a unit IS declared for a dimension, a result is inside the system only in base units
+    or in that unit - the undeclared Gaussian counterpart is accepted only while nothing is declared for the dimension"""
+    strict = True
+
+    def allowed(self, d):
+        if d in self.declared:
+            return set(self.base_atoms) | self.declared_atoms.get(d, set())
+        return SM.SysModel.allowed(self, d)
+
+
+def strict_of(model):
+    return StrictModel(model.name, [model.base[s] for s in SM.SLOTS], dict(model.declared), model.canon, origin=model.origin)
 
 
 def landing(S, ctx, rexpr, d, scale=None):
@@ -879,6 +913,10 @@ def batches(tier, seed):
     for k, sd in enumerate(seeds):
         for i in range(nedit):
             b.append((f"regedit/{k}/{i}", ("regedit", (sd, k, i, tier))))
+    nov, perov = (16, 3) if tier == "quick" else (64, 6)
+    for k, sd in enumerate(seeds):
+        for i in range(nov):
+            b.append((f"override/{k}/{i}", ("override", (sd, k, i, perov, tier))))
     return b
 
 
@@ -955,6 +993,9 @@ def worker(batch, rec):
     elif kind == "regedit":
         seed, k, i, tier = payload
         regedit_cases(unyt, rec, core.rng(seed, "regedit", k, i), i, tier)
+    elif kind == "override":
+        seed, k, i, n, tier = payload
+        override_cases(unyt, rec, core.rng(seed, "override", k, i), f"{k}_{i}", i, n, tier)
 
 
 # ------------------------------------------------------------------ user systems
@@ -1845,6 +1886,204 @@ def _plain_one(ctx, sysarg, ustr, vals, form):
         return (type(e).__name__, None)
 
 
+# ------------------------------------------------------------------ override histories: declare / re-declare a dimension of a LIVE system
+def dim_object(unyt, vec):
+    """the dimension object of a reference vector (order of dims.BASE: M L T K A I J LOG), built from unyt's base dimensions"""
+    import sympy
+    ud = unyt.dimensions
+    bases = (ud.mass, ud.length, ud.time, ud.temperature, ud.angle, ud.current_mks, ud.luminous_intensity, ud.logarithmic)
+    out = sympy.Integer(1)
+    for b, x in zip(bases, vec):
+        if x != 0:
+            out = out * b ** sympy.Rational(x.numerator, x.denominator)
+    return out
+
+
+def _differs(ctx, a, b, rel=1e-13):
+    """'unit' / 'value' / None for two (unit string or exception name, values or None) answers"""
+    (e1, v1), (e2, v2) = a, b
+    if e1 != e2 and not same_unit(ctx, e1, e2):
+        return "unit"
+    if v1 is not None and v2 is not None and not close(np.asarray(v1), np.asarray(v2), rel):
+        return "value"
+    return None
+
+
+def override_cases(unyt, rec, r, tag, idx, nhist, tier):
+    from unyt.unit_systems import unit_system_registry
+    from unyt.unit_registry import UnitRegistry
+    ctx0 = Ctx(unyt, rec)
+    vals = np.array(VALS[:3])
+    models = {}          # a built-in system keeps its (edited) model for the whole batch: the forked child owns its own copy of it
+    for h in range(nhist):
+        kind = OV.SYSKINDS[(idx * nhist + h) % len(OV.SYSKINDS)]
+        rec.count("mon:override-construct")
+        if kind in ("cgs", "mks", "builtin-cur"):
+            name = kind if kind != "builtin-cur" else r.choice(OV.BUILTIN_CUR)
+            Sobj = unit_system_registry[name]
+            if name not in models:
+                models[name] = strict_of(SM.builtin_model(name, ctx0.canon))
+            S = models[name]
+            twin_base = {"base": dict(zip(SM.SLOTS, SM.BUILTIN[name][0])), "forms": {s: ("str" if u is not None else "none") for s, u in zip(SM.SLOTS, SM.BUILTIN[name][0])},
+                         "coeff": {s: 1.0 for s in SM.SLOTS}, "over": [], "npos": 3}
+            rec.count("mon:override-builtin")
+        else:
+            desc = gen_system(r, f"ov{tag}_{h}", allow_offset=False)
+            cur = kind == "user-cur"
+            if cur and desc["base"]["current_mks"] is None:
+                _set_current(desc, r.choice(["A", "mA", "kA"]))
+            if not cur:
+                _set_current(desc, None)
+            desc["over"] = _gen_over(r, cur, 0.6) if r.random() < 0.5 else []
+            try:
+                Sobj, S0 = construct(unyt, desc)
+            except Exception as e:
+                rec.violation(f"C10:construct:consistent-base-rejected:{type(e).__name__}", f"UnitSystem with consistent base units {desc['base']} raised {type(e).__name__}: {str(e)[:150]}", desc)
+                continue
+            name = desc["name"]
+            S = strict_of(S0)
+            for (dn, u, kf, _w) in desc["over"]:
+                declare(unyt, Sobj, S, dn, u, kf)
+            twin_base = dict(desc, over=[])
+        scls = S.cls()
+        al = kind in ("cgs", "mks")
+        reg = UnitRegistry(unit_system=Sobj)
+        ctxr = Ctx(unyt, rec, reg)
+        hows = [("name", name, ctx0), ("object", Sobj, ctx0), ("registry-default", None, ctxr)]
+        hist = OV.History(r, S.has_current, dict(S.declared), tier)
+        nround = r.choice([2, 3]) if tier == "quick" else r.choice([3, 4, 5])
+        fams = sorted(hist.fams)
+        emf = [f for f in fams if f.startswith("em-")]
+        lead = r.choice(emf) if r.random() < 0.6 else r.choice(fams)
+        fam_order = [lead] + r.sample([f for f in fams if f != lead], len(fams) - 1)
+        events = []          # the override events of this history, in order: what the model's declared set is read from
+        for k in range(nround):
+            steps = hist.next_round(fam_order[k % len(fam_order)])
+            if not steps:
+                continue
+            avoid = {st["vec"] for st in steps}
+            by = hist.bystanders(2, avoid)
+            hi = r.randrange(len(hows))
+            tagk = "+override-history" if events else ""
+            cx_extra = {"overrides_so_far": [dict(e) for e in events], "system_given_as": hows[hi][0]}
+            # ---- conversions under the declarations in force (every route: judge() runs in_base, its second application,
+            #      get_base_equivalent, convert_to_base and, for cgs/mks, the *_cgs / *_mks spellings)
+            for st in steps:
+                for u in st["probes"]:
+                    how, arg, cx = hows[hi]
+                    rec.count("mon:override-before")
+                    judge(cx, S, arg, u, vals, cellkey=(scls, "override", "before", st["family"], how, family(u, None)), aliases=al, scls=scls, keytag=tagk,
+                          case_extra=dict(cx_extra, about_to_declare=(st["dimname"], st["unit"])))
+            for u in by:
+                how, arg, cx = hows[hi]
+                judge(cx, S, arg, u, vals, cellkey=(scls, "override", "before", "bystander", how, family(u, None)), aliases=False, scls=scls, keytag=tagk, case_extra=cx_extra)
+            # ---- the overrides
+            done = []
+            for st in steps:
+                key = dim_object(unyt, st["vec"]) if st["keyform"] == "dimobj" else st["key"]
+                rec.count("mon:override-declare")
+                try:
+                    Sobj[key] = st["unit"]
+                except Exception as e:
+                    rec.violation(f"C10:override:declare-raises:{type(e).__name__}:{st['family']}:{scls}",
+                                  f"system {name!r} {S.base}: S[{st['key'] if st['keyform'] == 'name' else 'dimension object of ' + st['dimname']!r}] = {st['unit']!r} raised {type(e).__name__}: {str(e)[:150]}",
+                                  {"system_base": S.base, "overrides_so_far": events, "step": {x: str(y) for x, y in st.items()}})
+                    continue
+                S.declared[st["vec"]] = st["unit"]
+                S.declared_atoms[st["vec"]] = S._atoms(st["unit"])
+                hist.commit(st)
+                events.append({"round": k, "dimension": st["dimname"], "key": st["key"] if st["keyform"] == "name" else "dimension-object", "unit": st["unit"], "replaces": st["previous"]})
+                rec.count("mon:override-family:" + st["family"])
+                rec.count("mon:override-redeclare" if st["redeclare"] else "mon:override-first-declaration-after-use")
+                done.append(st)
+            if not done:
+                continue
+            # ---- the same units again, AT ONCE: atoms of the SI/Gaussian pairing first (their route memoises per unit and system),
+            #      then the other spellings, then units of dimensions that were not declared in this round
+            order = [(st, u) for st in done for u in st["em_first"]]
+            order += [(st, u) for st in done for u in st["probes"] if u not in st["em_first"]]
+            order += [(None, u) for u in by]
+            cx_extra = {"overrides_so_far": [dict(e) for e in events]}
+            steplog = []
+            for j, (st, u) in enumerate(order):
+                how, arg, cx = hows[hi] if (j == 0 or r.random() < 0.7) else hows[r.randrange(len(hows))]
+                fam = family(u, None)
+                famkey = st["family"] if st is not None else "bystander"
+                first_form = OV.ROUTES[(j + k + h) % 3] if j % 4 != 3 else None
+                first = _plain_one(cx, arg, u, vals, first_form) if first_form is not None else None
+                tr = {}
+                out = judge(cx, S, arg, u, vals, cellkey=(scls, "override", "redeclared" if (st and st["redeclare"]) else "declared", famkey, how, fam), aliases=al, scls=scls,
+                            keytag="+override-history", trace=tr,
+                            case_extra=dict(cx_extra, system_given_as=how, first_route_after_override=first_form,
+                                            declared_now=(st["dimname"], st["unit"]) if st else None))
+                if out is None:
+                    continue
+                rec.count("mon:override-probe")
+                if st is None:
+                    rec.count("mon:override-bystander")
+                else:
+                    rec.count("mon:override-probe:" + st["family"])
+                    if OV.pairing_atom(u):
+                        rec.count("mon:override-probe-pairing-atom-" + ("redeclared" if st["redeclare"] else "first-declared"))
+                if how == "registry-default":
+                    rec.count("mon:override-default")
+                steplog.append((u, first_form, tr))
+                if first is not None:
+                    key_form = {"in_base": "in_base", "convert_to_base": "inplace", "get_base_equivalent": "gbe"}[first_form]
+                    if key_form in tr:
+                        rec.count("mon:override-first-call")
+                        rec.count("mon:override-first-call:" + first_form)
+                        what = _differs(cx, first, tr[key_form])
+                        if what:
+                            rec.violation(f"C10:override:first-call-after-override-differs-from-later-call:{first_form}:{what}:{fam}:{scls}",
+                                          f"system {name!r} after {events[-len(done):]}: the first {first_form} of ({u}) -> {first[1]} {first[0]}; the same call later -> {tr[key_form][1]} {tr[key_form][0]}",
+                                          dict(cx_extra, unit=u, system_base=S.base))
+                        else:
+                            rec.ok(("override-first-call", first_form, scls, famkey, fam))
+            # ---- S[dimension] hands out the unit that was declared
+            for st in done:
+                rec.count("mon:override-getitem")
+                key = st["key"] if (st["key"] is not None and r.random() < 0.5) else dim_object(unyt, st["vec"])
+                try:
+                    got = expr_of(Sobj[key])
+                    A = Affine(st["unit"], ctx0.res); B = Affine(got, ctx0.res)
+                    same = A.dim == B.dim and close(A.scale, B.scale, 1e-13) and {ctx0.canon(t) for t in SM.names_in(st["unit"])} == {ctx0.canon(t) for t in SM.names_in(got)}
+                except Exception as e:
+                    rec.violation(f"C10:override:getitem-raises:{type(e).__name__}:{st['family']}:{scls}", f"system {name!r}: S[{st['dimname']}] after declaring {st['unit']!r} raised {type(e).__name__}: {str(e)[:120]}", dict(cx_extra, system_base=S.base))
+                    continue
+                if not same:
+                    rec.violation(f"C10:override:getitem-is-not-the-declared-unit:{st['family']}:{scls}", f"system {name!r} {S.base}: S[{st['dimname']}] = {st['unit']!r} was declared (replacing {st['previous']!r}) but S[...] hands out {got!r}", dict(cx_extra, system_base=S.base))
+                else:
+                    rec.ok(("override-getitem", scls, st["family"], "redeclared" if st["redeclare"] else "declared"))
+            # ---- differential: the same base units under a never-used name with all the declarations made BEFORE any use
+            if k == nround - 1 or r.random() < 0.35:
+                tw = dict(twin_base, name=f"vf_c10_ovtwin_{tag}_{h}_{k}")
+                try:
+                    Tobj, _TS = construct(unyt, tw)
+                    for vec, u in S.declared.items():
+                        Tobj[dim_object(unyt, vec)] = u
+                except Exception as e:
+                    rec.note(f"harness:twin-not-constructible:{type(e).__name__}")
+                    continue
+                for (u, first_form, tr) in steplog:
+                    got = _plain_forms(unyt, ctx0, tw["name"], u, vals, first_form)
+                    fam = family(u, None)
+                    for form in ("in_base", "twice", "gbe", "inplace"):
+                        if form not in tr or form not in got:
+                            continue
+                        rec.count("mon:override-twin")
+                        what = _differs(ctx0, tr[form], got[form])
+                        if what:
+                            rec.violation(f"C10:override:differs-from-same-declarations-made-before-use:{form}:{what}:{fam}:{scls}",
+                                          f"system {name!r} {S.base} after the overrides {events}: ({u}) {form} -> {tr[form][1]} {tr[form][0]}; a system with the same base units under the never-used name "
+                                          f"{tw['name']!r} in which the same units were declared before any conversion -> {got[form][1]} {got[form][0]}",
+                                          dict(cx_extra, unit=u, form=form, system_base=S.base))
+                        else:
+                            rec.ok(("override-twin", form, scls, fam))
+        audit_units_map(ctx0, S, Sobj)
+        rec.sample({"override_history": {"system": name, "kind": kind, "base": S.base, "events": events}})
+
+
 # ------------------------------------------------------------------ registry default system
 def default_cases(unyt, rec, r, tier):
     from unyt.unit_registry import UnitRegistry
@@ -1993,7 +2232,13 @@ DECIDING = ("mon:in_base-calls", "mon:dim", "mon:inside", "mon:value", "mon:back
             "mon:redef-construct", "mon:redef-registered", "mon:redef-copy-keeps-registry", "mon:redef-judged", "mon:redef-copy", "mon:redef-em-after-warm",
             "mon:redef-stale-object", "mon:redef-registry-default", "mon:redef-twin", "mon:code-redefine", "mon:code-redefine-judged",
             "mon:regedit-construct", "mon:regedit-edit", "mon:regedit-getitem", "mon:regedit-old-quantity", "mon:regedit-judged", "mon:result-scale",
-            "mon:regedit-first-call", "mon:regedit-default", "mon:regedit-twin", "mon:regedit-code-reregistered")
+            "mon:regedit-first-call", "mon:regedit-default", "mon:regedit-twin", "mon:regedit-code-reregistered",
+            "mon:override-construct", "mon:override-builtin", "mon:override-before", "mon:override-declare", "mon:override-redeclare",
+            "mon:override-first-declaration-after-use", "mon:override-family:mechanical", "mon:override-family:thermal", "mon:override-family:em-si",
+            "mon:override-family:em-gauss", "mon:override-probe", "mon:override-probe:mechanical", "mon:override-probe:thermal", "mon:override-probe:em-si",
+            "mon:override-probe:em-gauss", "mon:override-probe-pairing-atom-first-declared", "mon:override-probe-pairing-atom-redeclared",
+            "mon:override-bystander", "mon:override-default", "mon:override-first-call", "mon:override-first-call:in_base",
+            "mon:override-first-call:convert_to_base", "mon:override-first-call:get_base_equivalent", "mon:override-getitem", "mon:override-twin")
 
 
 def extra(tier, seed, results):
